@@ -104,8 +104,11 @@ def decide(pid, tier, seed, jobs, record, no_bounded, t0):
     proof_obls = [(f, o) for f, o in obls if o["kind"] != "cover"]
     covers = [(f, o) for f, o in obls if o["kind"] == "cover"]
     discharged = [(f, o) for f, o in proof_obls if o["status"] == "discharged"]
-    refuted = [(f, o) for f, o in proof_obls if o["status"] in ("refuted", "failed")]
-    unknown = [(f, o) for f, o in proof_obls if o["status"] == "unknown"]
+    # obligations of kind "model" are applicability conditions of OUR models (an Optional used where the model needs a value, a
+    # duplicate-free argument of sorted(), debug printing off): when one is not provable the function is outside what the model
+    # covers -- undecided, never a violation of the property
+    refuted = [(f, o) for f, o in proof_obls if o["status"] in ("refuted", "failed") and o["kind"] != "model"]
+    unknown = [(f, o) for f, o in proof_obls if o["status"] == "unknown" or (o["status"] in ("refuted", "failed") and o["kind"] == "model")]
     vacuous = [(f, o) for f, o in covers if o["status"] == "vacuous"]
     undecided_fns = [r for r in results if r["status"] in ("out_of_subset", "missing")]
 
